@@ -137,7 +137,7 @@ def pyInt : Cls → Res Cls
   | float_inf | float_ninf => raise .OverflowError
   | float_nan => raise .ValueError
   | str_int => pure int_pos | str_zero => pure int_zero | str_negint => pure int_neg | str_ts => pure int_ts
-  | str_bigdigits => pure int_large
+  | str_bigdigits => [.ok int_large, .ok int_big, .ok int_huge]    -- 19 … 4300 digits
   | str_hugeint => raise .ValueError    -- more digits than sys.get_int_max_str_digits()
   | str_empty | str_float | str_exp | str_nan | str_inf | str_pct | str_fmt_d | str_fmt_s | str_b64 | str_b64_nonutf8
   | str_nonascii | str_surrogate | str_key | str_other => raise .ValueError
@@ -148,7 +148,8 @@ def pyInt : Cls → Res Cls
 /-- `float(s)` for a string -/
 def pyFloat : Cls → Res Cls
   | str_int => pure float_pos | str_zero => pure float_zero | str_negint => pure float_neg
-  | str_ts | str_bigdigits => pure float_pos
+  | str_ts => pure float_pos
+  | str_bigdigits => [.ok float_pos, .ok float_inf]
   | str_hugeint => pure float_inf     -- more than 308 digits
   | str_float => pure float_pos | str_exp | str_inf => pure float_inf | str_nan => pure float_nan
   | _ => raise .ValueError
